@@ -16,6 +16,12 @@ if ALT_REPO:
     WORK = os.path.join(ROOT, "work", "alt")
     OUT = WORK
     HARNESS = os.path.join(ROOT, "work", "alt_harness")
+# sweep mode (tools, not a registered check): the cases of a check are only EXECUTED (no TLC judgement) and every result that is
+# not "ok" is listed in work/sweep/notok_<id>.ndjson; own work directory, nothing written to /verif/evidence or /verif/replays
+SWEEP = os.environ.get("VERIF_SWEEP")
+if SWEEP:
+    WORK = os.path.join(ROOT, "work", "sweep")
+    OUT = WORK
 VH = os.path.join(HARNESS, "target", "debug", "vh")
 # coverage mode (tools/coverage.sh): the harness and the CLI are built with source-based coverage
 # instrumentation (nightly toolchain: it ships llvm-profdata / llvm-cov) into a separate target directory
